@@ -150,6 +150,21 @@ Theorem c09_filter_subset : forall (rows:list (list (list Z))) m,
 Proof. exact (filter_subset []). Qed.
 Print Assumptions c09_filter_subset.
 
-(* partial: Session.sort_on onto the SAME group (h5py slice assignment, `sort_on_same`) and the two
-   ndarray-source branches of Session.apply_filter/apply_index are modelled and checked by the
-   correspondence only; no theorem is stated for them. *)
+(* Session.apply_filter / apply_index with an ndarray source (after fixes F-C09a / F-C09c) *)
+Theorem c09_session_filter_array_correct : forall src dt flt dest,
+  (dt =? 0) || (dt =? 1) = true -> len flt = len src ->
+  session_apply_filter_array src dt flt dest
+  = Ok (gather 0 src (sel (truthy flt)),
+        match dest with Some d => Some (d ++ gather 0 src (sel (truthy flt))) | None => None end).
+Proof. exact session_filter_array_correct. Qed.
+Print Assumptions c09_session_filter_array_correct.
+
+Theorem c09_session_index_array_correct : forall src idx dest,
+  in_range (len src) idx = true ->
+  session_apply_index_array src idx dest
+  = Ok (gather 0 src idx, match dest with Some d => Some (d ++ gather 0 src idx) | None => None end).
+Proof. exact session_index_array_correct. Qed.
+Print Assumptions c09_session_index_array_correct.
+
+(* not stated: Session.sort_on onto the SAME group (h5py slice assignment, `sort_on_same`) is modelled and
+   checked by the correspondence only. *)
